@@ -287,6 +287,9 @@ func injReplay(raw json.RawMessage, idx int, tr *traceWriter) {
 			injRunPlain(&c, tr)
 		} else {
 			injRunFlame(&c, tr)
+			if idx%16 == 0 {
+				injCtxProbe(tr)
+			}
 		}
 	}
 }
@@ -411,6 +414,46 @@ func injRunFlame(c *injCase, tr *traceWriter) {
 				tr.emit(map[string]interface{}{"ev": "endreq", "s": s})
 			}
 		}
+	}
+}
+
+type ctxDeco struct {
+	flamego.Context
+	id int
+}
+
+// injCtxProbe: the request context maps itself as flamego.Context; an earlier handler re-maps the type to a
+// decorated context; later handlers asking for flamego.Context - through the built-in func(Context) fast path and
+// through the reflective path - must receive the re-registered value (a later registration replaces the earlier).
+func injCtxProbe(tr *traceWriter) {
+	f := flamego.NewWithLogger(io.Discard)
+	got := 0
+	see := func(c flamego.Context) int {
+		if d, ok := c.(*ctxDeco); ok {
+			return d.id
+		}
+		return 1
+	}
+	remap := func(c flamego.Context) {
+		tr.emit(map[string]interface{}{"ev": "reg", "op": "MapTo", "s": 2, "k": "CTX", "ct": "CTX", "id": 1})
+		c.MapTo(&ctxDeco{Context: c, id: 7}, (*flamego.Context)(nil))
+		tr.emit(map[string]interface{}{"ev": "reg", "op": "MapTo", "s": 2, "k": "CTX", "ct": "CTX", "id": 7})
+	}
+	f.Get("/fast", remap, func(c flamego.Context) { got = see(c) })
+	f.Get("/refl", remap, func(c flamego.Context, _ *http.Request) { got = see(c) })
+	for _, p := range []string{"/fast", "/refl"} {
+		got = 0
+		req, _ := http.NewRequest("GET", p, nil)
+		f.ServeHTTP(httptest.NewRecorder(), req)
+		calls := 0
+		args := []injVal{}
+		if got != 0 {
+			calls = 1
+			args = []injVal{{"CTX", got}}
+		}
+		tr.emit(map[string]interface{}{"ev": "invoke", "s": 2, "sig": []string{"CTX"}, "fast": p == "/fast", "err": false, "errtype": "",
+			"calls": calls, "args": args, "rets": []string{}, "bodyrets": []string{}})
+		tr.emit(map[string]interface{}{"ev": "endreq", "s": 2})
 	}
 }
 
